@@ -1,6 +1,7 @@
 package main
 
 import (
+	"fmt"
 	"go/ast"
 	"go/token"
 	"go/types"
@@ -216,7 +217,7 @@ func c06Run(r *Run) {
 			fk := funcKey(p, fd)
 			// local origins
 			org := map[types.Object]origin{}
-			sliceParam := map[types.Object]int{} // []*ZVal parameters → index
+			sliceParam := map[types.Object]int{}  // []*ZVal parameters → index
 			elemOfParam := map[types.Object]int{} // cells taken from such a parameter → its index
 			if fd.Type.Params != nil {
 				k := 0
@@ -556,6 +557,7 @@ func c06Run(r *Run) {
 
 	// ---- SINK ----
 	r.curRule = "C06-SINK"
+	c06OneValueManySlots(r, pkgs)
 	var clonesValueD func(p *packages.Package, fd *ast.FuncDecl, param types.Object, depth int) bool
 	clonesValue := func(p *packages.Package, fd *ast.FuncDecl, param types.Object) bool {
 		return clonesValueD(p, fd, param, 0)
@@ -1425,4 +1427,206 @@ func c06SlotToSlot(r *Run, np *packages.Package) {
 			return true
 		})
 	}
+}
+
+// c06OneValueManySlots (C06-SINK, clause #one-value-many-slots): a loop that fills several slots of an
+// array (SetSlotValue, a fresh ZVal, SetProperty) stores a value that can be an array only if that value is
+// made inside the loop — a loop-invariant value (computed or copied once in front of the loop) ends up in
+// every slot as the same *ArrayValue, and a write through one element shows in the others.
+func c06OneValueManySlots(r *Run, pkgs []*packages.Package) {
+	for _, p := range pkgs {
+		rel := strings.TrimPrefix(p.PkgPath, modPath+"/")
+		if rel != "data" && rel != "node" && !strings.HasPrefix(rel, "std/php") {
+			continue
+		}
+		info := p.TypesInfo
+		canHoldArray := func(t types.Type) bool {
+			if t == nil {
+				return false
+			}
+			if isNamed(t, modPath+"/data", "Value") || isNamed(t, modPath+"/data", "GetValue") {
+				return true
+			}
+			if pt, ok := t.(*types.Pointer); ok {
+				return isNamed(pt.Elem(), modPath+"/data", "ArrayValue") || isNamed(pt.Elem(), modPath+"/data", "ObjectValue")
+			}
+			return false
+		}
+		for _, fd := range funcDecls(p) {
+			if fd.Body == nil {
+				continue
+			}
+			fk := funcKey(p, fd)
+			var loops []ast.Stmt
+			judge := func(pos token.Pos, what string, val ast.Expr, loop ast.Stmt, call *ast.CallExpr) {
+				id, ok := ast.Unparen(val).(*ast.Ident)
+				if !ok {
+					return
+				}
+				if call != nil && c06LeavesLoopAfter(loop, call) {
+					return // a search loop: the store is followed by return/break, it runs once
+				}
+				v, ok := info.Uses[id].(*types.Var)
+				if !ok || !canHoldArray(v.Type()) {
+					return
+				}
+				if v.Pos() >= loop.Pos() && v.Pos() < loop.End() {
+					return // declared inside the loop (includes the loop's own key/value variables)
+				}
+				assignedInside := false
+				ast.Inspect(loop, func(k ast.Node) bool {
+					if as, ok := k.(*ast.AssignStmt); ok {
+						for _, l := range as.Lhs {
+							if lid, ok := l.(*ast.Ident); ok && info.ObjectOf(lid) == v {
+								assignedInside = true
+							}
+						}
+					}
+					return true
+				})
+				if assignedInside || c06ScalarDefinition(info, fd, v) {
+					return
+				}
+				r.bad(fk+"#one-value-many-slots:"+id.Name, pos, fmt.Sprintf("%s stores the loop-invariant value %s into one slot per iteration: when it is an array every slot holds the same *ArrayValue, and a write through one element shows in the others (copy per slot, inside the loop)", what, id.Name))
+			}
+			var walk func(n ast.Node)
+			walk = func(n ast.Node) {
+				ast.Inspect(n, func(m ast.Node) bool {
+					if m == nil || m == n {
+						return true
+					}
+					switch x := m.(type) {
+					case *ast.FuncLit:
+						return false
+					case *ast.ForStmt:
+						loops = append(loops, x)
+						walk(x.Body)
+						loops = loops[:len(loops)-1]
+						return false
+					case *ast.RangeStmt:
+						loops = append(loops, x)
+						walk(x.Body)
+						loops = loops[:len(loops)-1]
+						return false
+					case *ast.CompositeLit:
+						// &data.ZVal{Name: k, Value: v}
+						if len(loops) == 0 || !isNamed(info.TypeOf(x), modPath+"/data", "ZVal") {
+							return true
+						}
+						for _, el := range x.Elts {
+							kv, ok := el.(*ast.KeyValueExpr)
+							if !ok {
+								continue
+							}
+							if kid, ok := kv.Key.(*ast.Ident); ok && kid.Name == "Value" {
+								judge(x.Pos(), "&data.ZVal{…}", kv.Value, loops[len(loops)-1], nil)
+							}
+						}
+					case *ast.CallExpr:
+						if len(loops) == 0 {
+							return true
+						}
+						var val ast.Expr
+						cal, _ := calleeOf(info, x).(*types.Func)
+						calName := ""
+						if cal != nil && cal.Pkg() != nil && cal.Pkg().Path() == modPath+"/data" {
+							calName = cal.Name()
+						}
+						switch calName {
+						case "SetSlotValue", "SetProperty", "SetIntKey":
+							if len(x.Args) == 2 {
+								val = x.Args[1]
+							}
+						case "NewZVal":
+							if len(x.Args) == 1 {
+								val = x.Args[0]
+							}
+						case "NewNamedZVal":
+							if len(x.Args) == 2 {
+								val = x.Args[1]
+							}
+						}
+						// values = append(values, v) for a []data.Value that becomes an array's elements
+						if bid, isB := ast.Unparen(x.Fun).(*ast.Ident); isB && bid.Name == "append" && len(x.Args) == 2 && !x.Ellipsis.IsValid() {
+							if sl, ok := info.TypeOf(x.Args[0]).Underlying().(*types.Slice); ok && isNamed(sl.Elem(), modPath+"/data", "Value") {
+								val = x.Args[1]
+							}
+						}
+						if val != nil {
+							judge(x.Pos(), exprStr(x.Fun), val, loops[len(loops)-1], x)
+						}
+					}
+					return true
+				})
+			}
+			walk(fd.Body)
+		}
+	}
+}
+
+// c06ScalarDefinition: every assignment of v in fd gives it a scalar script value (a data.New<Scalar>Value call,
+// a constant) — then sharing it between slots is harmless.
+func c06ScalarDefinition(info *types.Info, fd *ast.FuncDecl, v *types.Var) bool {
+	defs, scalar := 0, 0
+	ast.Inspect(fd.Body, func(n ast.Node) bool {
+		as, ok := n.(*ast.AssignStmt)
+		if !ok || len(as.Lhs) != len(as.Rhs) {
+			return true
+		}
+		for i, l := range as.Lhs {
+			if id, ok := l.(*ast.Ident); ok && info.ObjectOf(id) == v {
+				defs++
+				if c, ok := ast.Unparen(as.Rhs[i]).(*ast.CallExpr); ok {
+					if cal, ok := calleeOf(info, c).(*types.Func); ok {
+						switch cal.Name() {
+						case "NewIntValue", "NewStringValue", "NewBoolValue", "NewNullValue", "NewFloatValue":
+							scalar++
+						}
+					}
+				}
+			}
+		}
+		return true
+	})
+	return defs > 0 && defs == scalar
+}
+
+// c06LeavesLoopAfter: in the statement list that holds the call, a later statement is an unconditional
+// return or break — the loop body runs the store at most once.
+func c06LeavesLoopAfter(loop ast.Stmt, call *ast.CallExpr) bool {
+	leaves := false
+	ast.Inspect(loop, func(n ast.Node) bool {
+		var list []ast.Stmt
+		switch x := n.(type) {
+		case *ast.BlockStmt:
+			list = x.List
+		case *ast.CaseClause:
+			list = x.Body
+		default:
+			return true
+		}
+		for i, st := range list {
+			if call.Pos() >= st.Pos() && call.End() <= st.End() {
+				if _, nested := st.(*ast.BlockStmt); nested {
+					continue
+				}
+				switch st.(type) {
+				case *ast.IfStmt, *ast.ForStmt, *ast.RangeStmt, *ast.SwitchStmt, *ast.TypeSwitchStmt:
+					continue // the call sits deeper: judged in its own list
+				}
+				for _, later := range list[i+1:] {
+					switch y := later.(type) {
+					case *ast.ReturnStmt:
+						leaves = true
+					case *ast.BranchStmt:
+						if y.Tok == token.BREAK || y.Tok == token.GOTO {
+							leaves = true
+						}
+					}
+				}
+			}
+		}
+		return true
+	})
+	return leaves
 }
